@@ -540,7 +540,7 @@ def run(rep, tier, seed, replay=None):
                     fail = "bufr_negative_ivalue(%d,%d) = %s is not sign-and-magnitude" % (v, n, c)
             else:
                 v, n = m[1], m[2]
-                want = -1 if v == (1 << n) - 1 else (-(v & ((1 << (n - 1)) - 1)) if v >> (n - 1) & 1 else v)
+                want = -(v & ((1 << (n - 1)) - 1)) if v >> (n - 1) & 1 else v      # sign and magnitude; all ones is -(2^(n-1)-1), not 'missing'
                 if int(c) != want:
                     fail = "bufr_cvt_ivalue(0x%x,%d) = %s, sign-and-magnitude value is %d" % (v, n, c, want)
         elif tag == "R":
